@@ -283,7 +283,7 @@ fn one_case(ctx: &WorkerCtx, rep: &mut WorkerReport, case_seed: u64) {
     let mut d = new_driver("C07");
     d.exec(Op::Init { hash: hist::ZERO_HASH.into(), ts: 1, height: 0 });
     let pks: Vec<String> = (0..4).map(|i| format!("5120{}", hex::encode([0xb0 + i as u8; 32]))).collect();
-    let h = format!("0x{:064x}", 0xc07u64);
+    let h = crate::hist::bh((0xc07u64) as u64);
     let r = d.exec(Op::Deploy { pk: pks[0].clone(), data: hist::hx(&asm::batcher_init()), enc: Enc::Hex, ctx: Ctx { ts: 2, hash: h.clone(), idx: 0 }, iid: format!("c07-batcher-{}", case_seed), len: 100_000, txid: hist::ZERO_HASH.into() });
     let Some(batcher) = hist::created_address(&r) else {
         rep.inconclusive("forwarder deployment failed");
